@@ -31,7 +31,7 @@ A40 = A24 + ([("hb", r, pd, None) for r in (-1, 4) for pd in ("N", "Y")] + [("tr
              [("rs", -1, "N", "s+3"), ("rs", 4, "N", "s+3"), ("rs", 0, "Y", "s+1"), ("app", 2, "N", None)] +
              # a Logon in the middle of the session (numbered like any other frame) and a SequenceReset that lacks NewSeqNo
              [("lg", r, "N", None) for r in (0, 1, 4)] + [("rsn", r, "N", None) for r in (-1, 0, 4)])
-STARTS = ["active", "awaiting", "active-handler-raises", "active-journal-write-fails", "logon-too-high"]
+STARTS = ["active", "awaiting", "active-handler-raises", "active-journal-write-fails", "logon-too-high", "active-handler-disconnects"]
 
 
 def plan(tier, seed):
@@ -91,6 +91,13 @@ async def run_history(acc, clock, role, start, syms, cid):
             async def boom(msg):
                 raise RuntimeError("application handler failed")
             ep.vf_hooks["on_message"] = boom
+        if start == "active-handler-disconnects":
+            # the application ends the session from inside on_message (end of day): the message it was handed counts as consumed, or the
+            # next connection of this object asks for it again
+            async def bye(msg):
+                acc.add("sessions_closed_from_inside_on_message")
+                await ep.disconnect(ConnectionState.DISCONNECTED_WCONN_TODAY, logout_message="end of day")
+            ep.vf_hooks["on_message"] = bye
         if start == "logon-too-high":
             await feed(peer.logon(seq=4))
             if ep.connection_state != ConnectionState.RESENDREQ_AWAITING:
@@ -218,6 +225,9 @@ async def run_history(acc, clock, role, start, syms, cid):
                     first = ("R2", "delivered-number-not-consumed", f"delivered {s} but E stays {Ea}")
                 elif t == "app" and s == Eb and not new_rx and Ea == Eb + 1:
                     first = ("R2", "in-sequence-app-message-skipped-silently", f"E {Eb} -> {Ea} without delivery")
+            if first is None and dropped and new_rx and Ea != Eb + 1:
+                acc.oracle("R2")
+                first = ("R2", "delivered-number-not-consumed", f"delivered {s}, the connection went down inside the handler, E stays {Ea}")
             # R3
             if first is None and not dropped and not (t == "rs"):
                 acc.oracle("R3")
